@@ -205,3 +205,10 @@ Proof. unfold agree_pre. intros H. symmetry. exact H. Qed.
 
 Lemma agree_pre_trans a s1 s2 s3 : agree_pre a s1 s2 -> agree_pre a s2 s3 -> agree_pre a s1 s3.
 Proof. unfold agree_pre. intros H1 H2. rewrite H2. exact H1. Qed.
+
+Lemma nskipn_cons_of_nnth l i c : nnth l i = Some c -> nskipn i l = c :: nskipn (i + 1) l.
+Proof.
+  intros H. replace (i + 1) with (1 + i) by lia. rewrite <- nskipn_nskipn.
+  rewrite <- (N.add_0_r i) in H. rewrite <- nnth_nskipn in H.
+  destruct (nskipn i l) as [|y r]; [discriminate|]. cbn in H. inversion H; subst. reflexivity.
+Qed.
